@@ -480,6 +480,33 @@ fn child(args: &[String]) -> ! {
             add("heap_grows_with_traffic", format!("live heap of the receiver: {} bytes after {} packets, {} bytes after {} packets (allowed {}): grows with traffic, not bounded by the configuration", l1, n1, l2, n2, allowed), json!({"marks": live_marks}));
         }
     }
+    // ---- the single-session API next to it: a Receiver for TSI 1 that hears one packet of its session and then, for
+    // twelve timeouts, only datagrams of ANOTHER session on the same socket (and cleanup() calls): traffic that is not
+    // its own, and housekeeping, are not activity - the session counts as expired
+    if let (Some(ms), false, 2) = (s.timeout_ms, s.session_alive, idx % 3) {
+        let r = util::guarded(|| {
+            let cfg1 = RxConfig { session_timeout: Some(Duration::from_millis(ms)), object_timeout: Some(Duration::from_millis(ms)), ..Default::default() };
+            let mut one = flute::receiver::Receiver::new(&ep, 1, std::rc::Rc::new(NullBuilder), Some(cfg1));
+            let _ = one.push_data(&obj_pkt(1, 5, 0, None, 0, 0, 0, &[1, 2, 3, 4], false), now);
+            let period = Duration::from_micros(ms * 1000 / 3).max(Duration::from_millis(1));
+            let t_start = std::time::Instant::now();
+            let mut k = 0u32;
+            while t_start.elapsed() < Duration::from_millis(ms * 12 + 20) {
+                std::thread::sleep(period);
+                k += 1;
+                let _ = one.push_data(&obj_pkt(2, 9, 0, None, 0, k, 0, &[9, 9, 9, 9], false), now + period * k);
+                if k % 2 == 0 {
+                    one.cleanup(now + period * k);
+                }
+            }
+            one.is_expired()
+        });
+        match r {
+            Ok(true) => {}
+            Ok(false) => add("single_session_kept_alive_by_foreign_traffic", format!("a single-session Receiver (TSI 1, session_timeout {} ms) that heard nothing of its own session for {} ms - only datagrams of TSI 2 and cleanup() calls - does not report is_expired()", ms, ms * 12 + 20), json!(null)),
+            Err(pn) => add("panic", format!("single-session receiver: {} @ {}", pn.msg, pn.short_loc()), json!({"site": pn.file()})),
+        }
+    }
     // ---- release after the timeouts
     let mut released = Value::Null;
     if let Some(ms) = s.timeout_ms {
@@ -561,7 +588,7 @@ fn main() {
     let prop = Property {
         id: "C17",
         level: "exploration",
-        rule: "traffic that keeps things undecodable, one scenario per single-threaded child process under the counting allocator: one object cached without FDT, many cached objects, decoded blocks waiting behind an incomplete block 0 (No-Code, RS28, RS28 under-specified, RaptorQ), FDT instance ids that never complete, FDT instances that arrive completely and do not parse, hundreds of idle sessions, objects failing one after the other, many complete FDT instances, objects stalling under FDT updates, packets naming source blocks far ahead inside an announced partitioning of 2^16 / 2^24 blocks; x cache size {1 KiB, 64 KiB, 1 MiB, default} x max_objects_error {0,1,16} x timeouts {5 ms, none} x traffic scale; oracle: structural invariants from verif_stats() after every push batch (cached bytes <= cache + 1 packet, waiting blocks <= cache + 2 blocks - on the hook's counter and, with a calibrated per-block allowance, on the real live heap -, error list <= max_objects_error, <= 10 complete FDTs), slope test on live heap (10x more traffic of the same kind costs no more than the configured bound), release after sleeping 12x the timeouts and one cleanup (no session, object or unfinished FDT left, heap back to baseline + 192 KiB); a case is one scenario, non-trivial when packets were pushed; distinct = scenario parameters; in one scenario out of three cleanup() runs on a period three times shorter than the timeouts during the whole silence",
+        rule: "traffic that keeps things undecodable, one scenario per single-threaded child process under the counting allocator: one object cached without FDT, many cached objects, decoded blocks waiting behind an incomplete block 0 (No-Code, RS28, RS28 under-specified, RaptorQ), FDT instance ids that never complete, FDT instances that arrive completely and do not parse, hundreds of idle sessions, objects failing one after the other, many complete FDT instances, objects stalling under FDT updates, packets naming source blocks far ahead inside an announced partitioning of 2^16 / 2^24 blocks; x cache size {1 KiB, 64 KiB, 1 MiB, default} x max_objects_error {0,1,16} x timeouts {5 ms, none} x traffic scale; oracle: structural invariants from verif_stats() after every push batch (cached bytes <= cache + 1 packet, waiting blocks <= cache + 2 blocks - on the hook's counter and, with a calibrated per-block allowance, on the real live heap -, error list <= max_objects_error, <= 10 complete FDTs), slope test on live heap (10x more traffic of the same kind costs no more than the configured bound), release after sleeping 12x the timeouts and one cleanup (no session, object or unfinished FDT left, heap back to baseline + 192 KiB); a case is one scenario, non-trivial when packets were pushed; distinct = scenario parameters; in one scenario out of three cleanup() runs on a period three times shorter than the timeouts during the whole silence; in another third a single-session Receiver that hears only another session's datagrams and cleanup() calls for twelve timeouts must report is_expired()",
         assumptions: vec![
             "heap numbers are process-wide counters of a single-threaded child; the monitoring writer stores no data".into(),
             "the number of simultaneously live objects / sessions within the timeout is a parameter of the bound, not a violation".into(),
